@@ -79,7 +79,7 @@ def run_impl(k, flags, ax, seed, profile, obj=None):
     ups, outs, bottom, exc = rig.send(obj)
     obs = R.norm_actions(R.abstract_obs(ups, outs, exc, ser))
     obs_bottom = R.norm_actions(R.abstract_obs([], bottom, None, ser))
-    raw = {"ups": ups, "outs": outs, "bottom": bottom, "exc": exc, "ser": ser, "entity": obj, "rig": rig}
+    raw = {"ups": ups, "outs": outs, "bottom": bottom, "exc": exc, "ser": ser, "entity": obj}
     return feats, obs, obs_bottom, raw
 
 
@@ -203,10 +203,12 @@ def sweep(ctx, model, table, select, nvec, profile, stats, judge_answers=True):
     Correspondence against the model (variant = repaired) and the property oracle on every case."""
     K = kinds()
     rows = dict((r[0].decode(), r) for r in table[0]) if table else {}
-    cases, model_args = [], []
     for k in K.KINDS:
         if not select(k):
             continue
+        cases, model_args = [], []
+        stats["profiles"] = stats.get("profiles", 0) + 1
+        profile = R.make_profile(ctx.scratch, stats["profiles"])
         for ax in (0, 1):
             for flags in FLAGSETS:
                 for _ in range(nvec):
@@ -233,8 +235,12 @@ def sweep(ctx, model, table, select, nvec, profile, stats, judge_answers=True):
                                 k, flags, ax, seed, raw, {"problem": "; ".join(pr)}), found_input=False)
                     cases.append((k, flags, ax, seed, obs, obs_bottom, raw))
                     model_args.append(model_arg(flags, ax, [[1 if k["dir"] == "send" else 0, feats]]))
-    if model is None:
-        return cases
+        if model is None:
+            continue
+        _compare(ctx, model, cases, model_args, stats, judge_answers)
+
+
+def _compare(ctx, model, cases, model_args, stats, judge_answers):
     results = model.call_many("run_trace", model_args)
     for (k, flags, ax, seed, obs, obs_bottom, raw), arg, res in zip(cases, model_args, results):
         bad = isinstance(res, tuple)
@@ -247,10 +253,10 @@ def sweep(ctx, model, table, select, nvec, profile, stats, judge_answers=True):
             alt = model.call("run_trace", [UNREPAIRED] + arg[1:])
             if not isinstance(alt, tuple) and norm_model(alt[0])[0] == obs:
                 extra["note"] = "the implementation behaves like the UNREPAIRED model variant: a fix under /verif/fixes is not applied to this tree"
-            failing = bool(k["domain"] and (oracle_recv(k, flags, raw) if k["dir"] == "recv"
-                                             else oracle_send(k, flags, ax, raw)))
+            orc = (oracle_recv(k, flags, raw) if k["dir"] == "recv" else oracle_send(k, flags, ax, raw)) \
+                if k["domain"] else []
+            failing = bool([o for o in orc if judge_answers or o[0] != "oracle:answers"])
             ctx.violation("correspondence:C06.dispatch", describe(k, flags, ax, seed, raw, extra), found_input=failing)
-    return cases
 
 
 def reply_sweep(ctx, model, nvec, profile, stats):
@@ -343,6 +349,23 @@ def replay_case(ctx, data, profile):
     """re-run a recorded case on the implementation; 1 if the property oracle still fails"""
     case = data["case"]
     K = kinds()
+    if "request" in case and "gen_seed" in case:
+        rq = [q for q in K.REQS if q["name"] == case["request"]][0]
+        flags = tuple(case["flags"][f] for f in R.FLAGS)
+        entity, mkreply = rq["gen"](random.Random(case["gen_seed"]))
+        rig = R.Rig(flags, case["axolotl"], profile)
+        rig.send(entity)
+        reply = mkreply(entity.getId()) if case["reply_type"] == "result" else K._err(entity.getId(), K.SRV)
+        rups, rdowns, rexc = rig.recv(reply)
+        got = [type(u).__name__ for u in rups]
+        print("request:", case["request"], "reply:", case["reply_type"], "flags:", case["flags"])
+        print("observed:", got, [R.show(x) for x in rdowns], repr(rexc))
+        print("expected:", case.get("expected_up"), [], None)
+        if got != case.get("expected_up") or rdowns or rexc is not None:
+            print("VIOLATION property=%s replay=(replayed)" % ctx.pid)
+            return 1
+        print("property holds on this input now")
+        return 0
     if "kind" not in case:
         print("replay: this record names a broken tie without a concrete input:", json.dumps(case)[:600])
         return 1
